@@ -12,7 +12,8 @@ PROP = "C15"
 RULE = ("every spec of all four universes (all MolGraph classes n<=4 over {C,H,O} also expressed in the three other classes, "
         "reaction graphs n<=3 with every role assignment incl. fleeting, stereo stars of every class x every stereoisomer x "
         "unspecified parity x lone-pair placeholder, two-unit graphs, stereo reaction graphs with all 7 non-empty kind combinations "
-        "for atom and bond stereo changes, symmetric graphs, empty graph) x three identifier pools (0..n-1, negative/mixed, >=2^31) and once with extra attributes (bond_order, order, charge, "
+        "for atom and bond stereo changes, static bond descriptors on bonds with a reaction role, symmetric graphs, 7-coordinate and "
+        "133-atom graphs, empty graph) x three identifier pools (0..n-1, negative/mixed, >=2^31) and once with extra attributes (bond_order, order, charge, "
         "free-form) on every atom and bond. "
         "Oracle: json_deserialize(json_serialize(g)) has the same class and an identical normalised snapshot (atoms, elements, "
         "bonds, roles, exact descriptor tuples and parities, changes); == and hash agree with the original.  distinct = (spec, pool)")
@@ -36,6 +37,14 @@ def specs(tier):
     S += list(U.two_unit())
     S += list(U.scrg_universe("thorough" if tier == "thorough" else "quick"))
     S += [g for _, g in U.symmetric()]
+    S += list(U.hubs("quick"))[:2] + list(U.large("quick"))[:2]
+    # an ordinary (static) bond descriptor on a bond that also carries a reaction role, next to a bond stereo change elsewhere
+    at = [(40, "C"), (41, "C"), (42, "F"), (43, "H"), (44, "Cl"), (45, "H"), (46, "C"), (47, "C"), (48, "F"), (49, "H"), (50, "Br"), (51, "H")]
+    for role in ("FORMED", "BROKEN", "FLEETING", None):
+        bd = [(40, 41, role), (40, 42), (40, 43), (41, 44), (41, 45), (46, 47), (46, 48), (46, 49), (47, 50), (47, 51), (41, 46, "FORMED")]
+        for cls, par in (("PlanarBond", 0), ("AtropBond", 1), ("AtropBond", -1)):
+            S.append(U.mk(SCRG, at, bd, bstereo=[(cls, (42, 43, 40, 41, 44, 45), par)],
+                          bchg={(46, 47): {"BROKEN": ("PlanarBond", (48, 49, 46, 47, 50, 51), 0), "FORMED": ("PlanarBond", (48, 49, 46, 47, 51, 50), 0)}}))
     return S
 
 
